@@ -707,6 +707,7 @@ def fold(x, lo, hi, range=None, range2=None): # *** BUG: ídem wrap con range y 
     if hi == lo: return lo
     if range is None:
         range = hi - lo
+    if range2 is None:
         range2 = range + range
     c = x2 - range2 * floor(x2 / range2)
     if c >= range:
